@@ -5,7 +5,8 @@ use chrono_english::{parse_date_string, Dialect};
 use regex::Regex;
 
 static DATE_REGEX: LazyLock<Regex> = LazyLock::new(|| {
-    Regex::new("(\\d{4})(-|:)(\\d{1,2})(-|:)(\\d{1,2}) ?(\\d{1,2})?:?(\\d{1,2})?:?(\\d{1,2})?").unwrap()
+    // ASCII digits only: \\d also matches the decimal digits of other scripts, which the field parsers below reject
+    Regex::new("([0-9]{4})(-|:)([0-9]{1,2})(-|:)([0-9]{1,2}) ?([0-9]{1,2})?:?([0-9]{1,2})?:?([0-9]{1,2})?").unwrap()
 });
 
 pub fn parse_datetime(s: &str) -> Result<(NaiveDateTime, NaiveDateTime), String> {
@@ -116,7 +117,10 @@ pub fn parse_datetime(s: &str) -> Result<(NaiveDateTime, NaiveDateTime), String>
                     _ => Err("Error parsing date/time value: ".to_string() + s),
                 }
             } else if s.len() >= 2 && (s.starts_with("+") || s.starts_with("-")) {
-                let days = s.parse::<i64>().unwrap();
+                let days = match s.parse::<i64>() {
+                    Ok(days) => days,
+                    _ => return Err("Error parsing date/time value: ".to_string() + s),
+                };
                 let date = Local::now().date_naive() + Duration::days(days);
                 let start = date.and_hms_opt(0, 0, 0).unwrap();
                 let finish = date.and_hms_opt(23, 59, 59).unwrap();
